@@ -6,4 +6,12 @@ var profiles = map[string]profile{
 		Files:   map[string]fileRule{},
 		AddDirs: []string{"common"},
 	},
+	// schedsim for the transaction pool: every lock, go statement, select and timer of pkg/txpool is kernel-controlled.
+	"txpool": {
+		Files: map[string]fileRule{
+			"pkg/txpool/txpool.go": {Swap: map[string]string{"sync": pSync, "time": pTime}, GoTasks: true, Selects: true, MapRanges: []string{"t.perAccount"}},
+			"pkg/txpool/txlist.go": {Swap: map[string]string{"sync": pSync}},
+		},
+		AddDirs: []string{"common", "txpool"},
+	},
 }
